@@ -13,6 +13,15 @@ def P(src, variant, name, args=None, tiers=('quick', 'thorough'), tier_args=None
 
 
 CHECKS = {
+    'C18': {
+        'engine': 'langx',
+        'rule': 'all small arrays of objects vs reference partition',
+        'parts': [
+            P('props/C18.cpp', 'asan', 'group-asan', tier_args={'quick': ['--n', '2'], 'thorough': ['--n', '3']}),
+            P('props/C18.cpp', 'fast', 'group-fast', tier_args={'quick': ['--n', '3'], 'thorough': ['--n', '4']}),
+        ],
+        'floor': {'quick': 50, 'thorough': 50},
+    },
     'C12': {
         'engine': 'seqx',
         'rule': 'Value operation histories vs abstract document model',
